@@ -64,11 +64,20 @@ def _strip_hist(d):
     return d
 
 
+_HKEYS = ('tid', 'size', 'user_name', 'description')
+
+
 def q_history(s, m, oid, size):
     got = _call(s.history, oid, size)
-    if got[0] == 'ok':
-        got = ('ok', [_strip_hist(d) for d in got[1]])
     want = _model(m.history, oid, size)
+    if hasattr(s, '_file'):          # FileStorage merges the extension dict into each entry
+        if got[0] == 'ok':
+            got = ('ok', [_strip_hist(d) for d in got[1]])
+    else:                            # other storages: compare the common keys
+        if got[0] == 'ok':
+            got = ('ok', [dict((k, d.get(k)) for k in _HKEYS) for d in got[1]])
+        if want[0] == 'ok':
+            want = ('ok', [dict((k, d.get(k)) for k in _HKEYS) for d in want[1]])
     check(got == want, 'history(oid, size) differs', oid, size, got, want)
 
 
